@@ -464,13 +464,40 @@ def rule_or_aggr(repo, col):
               'an empty id yields an error', 'empty ids are not tested')
     # ---- HDF5 ---------------------------------------------------------
     f = repo.func(VAL, 'TableValidator._validate_hdf5')
-    assigns = local_assignments(f)
     ce = ConstEval(repo)
-    # which names hold an ids dataset, per axis
-    for axis in ('observation', 'sample'):
-        path = '%s/ids' % axis
-        holders = _hdf5_ids_holders(f, path, ce)
-        contents = set()   # names/exprs holding the *contents*
+    # same-class helpers the validator hands the table to
+    helpers = []
+    for n in ast.walk(f):
+        if isinstance(n, ast.Call) and isinstance(n.func, ast.Attribute) \
+                and dotted(n.func.value) == 'self' and \
+                repo.has_func(VAL, 'TableValidator.' + n.func.attr) and \
+                any(dotted(a) == 'table' for a in n.args):
+            g = repo.func(VAL, 'TableValidator.' + n.func.attr)
+            if g not in helpers and g is not f:
+                helpers.append(g)
+
+    def scan(func, path, wildcard):
+        assigns = local_assignments(func)
+        holders = _hdf5_ids_holders(func, path, ce)
+        if wildcard and not holders:
+            ps = set(param_names(func))
+            for n in ast.walk(func):
+                if isinstance(n, ast.Assign) and isinstance(
+                        n.targets[0], ast.Name):
+                    v = n.value
+                    key = None
+                    if isinstance(v, ast.Call) and isinstance(
+                            v.func, ast.Attribute) and \
+                            v.func.attr == 'get' and v.args:
+                        key = v.args[0]
+                    elif isinstance(v, ast.Subscript):
+                        key = v.slice
+                    if isinstance(key, ast.BinOp) and isinstance(
+                            key.op, ast.Mod) and \
+                            const_str(key.left) == '%s/ids' and \
+                            isinstance(key.right, ast.Name) and \
+                            key.right.id in ps:
+                        holders.add(n.targets[0].id)
 
         def reads_contents(e, holders=holders):
             for n in ast.walk(e):
@@ -494,23 +521,11 @@ def rule_or_aggr(repo, col):
                         dotted(n.iter) in holders:
                     return True
             return False
-        aggs, coll = _aggregates(f, reads_contents, assigns)
-        aggs = [(n, how) for n, how in aggs if _influences_verdict(f, m, n)]
-        role = 'hdf5-duplicate:%s' % axis
-        if not holders:
-            col.bad(rule, VAL, 'TableValidator._validate_hdf5', role, None,
-                    "the '%s' dataset is never looked up" % path)
-            continue
-        col.check(bool(aggs), rule, VAL, 'TableValidator._validate_hdf5',
-                  role, aggs[0][0] if aggs else None,
-                  "contents of '%s' are read and aggregated (%s)"
-                  % (path, aggs[0][1] if aggs else ''),
-                  "the contents of '%s' are never read and aggregated (only "
-                  'its length is used): duplicated ids cannot be rejected'
-                  % path)
-        # blank: an emptiness test on the elements
+        aggs, coll = _aggregates(func, reads_contents, assigns)
+        aggs = [(n, how) for n, how in aggs
+                if _influences_verdict(func, m, n)]
         blank = None
-        for n in ast.walk(f):
+        for n in ast.walk(func):
             if isinstance(n, (ast.ListComp, ast.GeneratorExp, ast.For)):
                 gens = n.generators if not isinstance(n, ast.For) else [n]
                 for g in gens:
@@ -522,8 +537,33 @@ def rule_or_aggr(repo, col):
                         for x in ast.walk(body):
                             if _is_emptiness_test(x, tn):
                                 blank = x
+        return holders, aggs, blank
+    for axis in ('observation', 'sample'):
+        path = '%s/ids' % axis
+        holders, aggs, blank = scan(f, path, False)
+        where = 'TableValidator._validate_hdf5'
+        if not (holders and aggs and blank is not None):
+            for g in helpers:
+                h2, a2, b2 = scan(g, path, True)
+                if h2:
+                    holders = holders or h2
+                    aggs = aggs or a2
+                    blank = blank if blank is not None else b2
+                    where = 'TableValidator.' + g.name
+        role = 'hdf5-duplicate:%s' % axis
+        if not holders:
+            col.bad(rule, VAL, 'TableValidator._validate_hdf5', role, None,
+                    "the '%s' dataset is never looked up" % path)
+            continue
+        col.check(bool(aggs), rule, VAL, where,
+                  role, aggs[0][0] if aggs else None,
+                  "contents of '%s' are read and aggregated (%s)"
+                  % (path, aggs[0][1] if aggs else ''),
+                  "the contents of '%s' are never read and aggregated (only "
+                  'its length is used): duplicated ids cannot be rejected'
+                  % path)
         col.check(blank is not None, rule, VAL,
-                  'TableValidator._validate_hdf5', 'hdf5-blank:%s' % axis,
+                  where, 'hdf5-blank:%s' % axis,
                   blank, "each id of '%s' is tested for emptiness" % path,
                   "no emptiness test over the ids of '%s': an empty id is "
                   'reported valid' % path)
